@@ -879,6 +879,11 @@ func (rt *runtime) toValue(value interface{}) Value {
 
 		switch val.Kind() {
 		case reflect.Ptr:
+			if val.CanAddr() {
+				// A pointer FIELD (or element): bridge the pointer it holds now, not
+				// the slot - var c = p.Child; p.Child = q; c still is the old child.
+				val = reflect.ValueOf(val.Interface())
+			}
 			switch reflect.Indirect(val).Kind() {
 			case reflect.Struct:
 				return objectValue(rt.newGoStructObject(val))
